@@ -296,10 +296,43 @@ pub fn dir_digest(root: &Path) -> u64 {
         h.str(&name);
         h.u64(len);
         if !name.ends_with('/') {
-            if let Ok(data) = std::fs::read(root.join(&name)) {
-                h.u64(fnv(&data));
-            }
+            h.u64(file_digest(&root.join(&name)));
         }
     }
     h.finish()
+}
+
+
+/// Content digest of a file; for large (preallocated, zero-padded) files the content is read in
+/// 1 MiB chunks up to and including the first all-zero chunk (the length is hashed separately).
+pub fn file_digest(p: &Path) -> u64 {
+    use std::io::Read;
+    let Ok(mut f) = std::fs::File::open(p) else {
+        return 0;
+    };
+    let mut h = Hasher::new();
+    let mut chunk = vec![0u8; 1 << 20];
+    loop {
+        let Ok(n) = f.read(&mut chunk) else { break };
+        if n == 0 {
+            break;
+        }
+        h.u64(fnv(&chunk[..n]));
+        if n == chunk.len() && chunk.iter().all(|b| *b == 0) {
+            break;
+        }
+    }
+    h.finish()
+}
+
+
+/// Per-file digests (for reporting what changed).
+pub fn dir_file_digests(root: &Path) -> Vec<(String, u64, u64)> {
+    dir_listing(root)
+        .into_iter()
+        .map(|(name, len)| {
+            let d = if name.ends_with('/') { 0 } else { file_digest(&root.join(&name)) };
+            (name, len, d)
+        })
+        .collect()
 }
